@@ -236,7 +236,7 @@ def r6_r7_reader(ctx):
 
 def r8_single_forwarder(ctx):
     n = 0
-    for key, body in ctx.P.bodies.items():
+    for key, body in ctx.P.scan():
         for c in calls_norm(body, "UnboundedReceiver::recv"):
             recvty = ""
             if c.targs:
@@ -281,7 +281,7 @@ PARTIAL_WRITES = ("AsyncWriteExt::write", "AsyncWriteExt::write_buf", "AsyncWrit
 def r9_complete_writes(ctx):
     """bytes handed to a socket / the transport are written completely: only whole-buffer write APIs are used"""
     n_all = 0
-    for key, body in ctx.P.bodies.items():
+    for key, body in ctx.P.scan():
         if key.startswith(("util::cert", "util::tls")):
             continue
         for c in body.calls():
